@@ -347,6 +347,7 @@ class ScandirOrder:
 class FaultInjector:
     """persistent faults: (primitive, (st_dev, st_ino)) -> errno, injected by patching os.* in-process"""
     suspended = False       # the harness's own observations (file listings) are not subject to the faults
+    fired = 0               # number of faults raised during the last run
     def __init__(self, faults):
         self.faults = {(p, ident): en for p, ident, en in faults}
 
@@ -364,9 +365,19 @@ class FaultInjector:
             except OSError:
                 return None
 
+        counters = {}
+        FaultInjector.fired = 0
+
         def hit(prim, ident, path):
             en = None if FaultInjector.suspended else faults.get((prim, ident))
+            if isinstance(en, (tuple, list)):
+                # a transient fault: only the n-th matching call fails
+                en, nth = en
+                counters[(prim, ident)] = counters.get((prim, ident), 0) + 1
+                if counters[(prim, ident)] != nth:
+                    en = None
             if en is not None:
+                FaultInjector.fired += 1
                 code = ERRNO_NAMES.get(en, errno.EIO)
                 raise OSError(code, os.strerror(code), path if isinstance(path, str) else None)
 
